@@ -1,9 +1,9 @@
 package checks
 
 import (
-	"os"
 	"context"
 	"fmt"
+	"os"
 	"strings"
 	"sync"
 	"sync/atomic"
